@@ -479,7 +479,107 @@ def execute_pair(fam, T, items_a, items_b, flavour, scratch):
     return oa, ob, py, err
 
 
+def execute_dictarg(fam, T, key_items, flavour, scratch):
+    """ONE argument --x typed Dict[str, T] (or Mapping[str, T]): key_items = [(key, items)], the i-th source is the dict of
+    the i-th values of all keys; the first source is a --cfg, the later ones --cfg or a whole-value option --x=<json>.
+    Every key is observed on its own (its normalised spec, the part of the constructor log that built its object)."""
+    from typing import Dict, Mapping
+
+    mod = load_family(fam, scratch)
+    modname = mod.__name__
+    n = max(len(items) for _, items in key_items)
+    argv = []
+    for i in range(n):
+        data = {k: to_json(items[i]["v"], modname) for k, items in key_items if i < len(items)}
+        if i > 0 and flavour & 2:
+            argv.append("--x=" + json.dumps(data))
+        elif flavour & 4:
+            path = os.path.join(scratch, f"dictarg_{os.getpid()}_{i}.json")
+            with open(path, "w") as f:
+                f.write(json.dumps({"x": data}))
+            argv += ["--cfg", path]
+        else:
+            argv.append("--cfg=" + json.dumps({"x": data}))
+    cls = getattr(mod, T)
+    hint = Mapping[str, cls] if flavour & 8 else Dict[str, cls]
+    p = ArgumentParser(exit_on_error=False)
+    p.add_argument("--cfg", action=ActionConfigFile)
+    p.add_argument("--x", type=hint)
+    mod.LOG.clear()
+    blank = {"ok": False, "v": REJ, "inst": "skip", "log": [], "root": 0, "rtype": ""}
+    obs = {k: dict(blank) for k, _ in key_items}
+    buf = io.StringIO()
+    py = (f"# module {modname}:\n{family_source(fam)}\n# p = ArgumentParser(exit_on_error=False); p.add_argument('--cfg', action=ActionConfigFile); "
+          f"p.add_argument('--x', type={'Mapping' if flavour & 8 else 'Dict'}[str, {T}])\n# cfg = p.parse_args({argv!r}); init = p.instantiate_classes(cfg)")
+    try:
+        with redirect_stderr(buf), redirect_stdout(buf):
+            cfg = p.parse_args(list(argv))
+    except ArgumentError as ex:
+        return obs, py, str(ex)[:400]
+    except Exception as ex:
+        for o in obs.values():
+            o["ok"], o["v"] = True, {"k": "other", "s": "parse raised " + type(ex).__name__}
+        return obs, py, type(ex).__name__ + ": " + str(ex)[:400]
+    x = cfg.get("x")
+    err = ""
+    if not isinstance(x, dict) and not hasattr(x, "items"):
+        for o in obs.values():
+            o["ok"], o["v"] = True, {"k": "other", "s": "x is " + type(x).__name__}
+        return obs, py, err
+    last = {k for k, items in key_items if len(items) == n}
+    if set(x.keys()) != last:
+        err += f"keys of the result {sorted(x.keys())} are not the keys of the last source {sorted(last)}"
+    for k, o in obs.items():
+        if k in x:
+            o["ok"], o["v"] = True, alpha(x[k], modname)
+        else:
+            o["ok"], o["v"] = True, {"k": "other", "s": "key missing in the result"}
+    if any(o["v"]["k"] != "spec" for k, o in obs.items() if k in last):
+        return obs, py, err
+    try:
+        with redirect_stderr(buf), redirect_stdout(buf):
+            init = p.instantiate_classes(cfg)
+        full = [{"c": c, "kw": {kk: alpha_obj(v) for kk, v in kw.items()}} for c, kw in mod.LOG]
+        used = 0
+        res = init.get("x")
+        for k in last:
+            o = obs[k]
+            r = res[k]
+            o["inst"] = "ok"
+            o["log"], o["root"] = split_log(full, getattr(r, "_verif_idx", 0))
+            o["rtype"] = type(r).__name__
+            used += len(o["log"])
+        if used != len(full):
+            for k in last:
+                obs[k]["log"] = obs[k]["log"] + [{"c": "?extra-constructor-calls", "kw": {}}]
+    except Exception as ex:
+        for k in last:
+            obs[k]["inst"] = "raise"
+        err += "instantiate_classes: " + type(ex).__name__ + ": " + str(ex)[:300]
+    return obs, py, err
+
+
 _G: dict = {}
+
+
+def _work_dictarg(job):
+    idx, fi, T, key_items, flavour = job
+    try:
+        obs, py, err = execute_dictarg(_G["fams"][fi], T, key_items, flavour, _G["scratch"])
+        return idx, obs, py, err
+    except Exception as ex:
+        import traceback
+
+        return idx, {"machinery": type(ex).__name__ + ": " + str(ex)[:300] + traceback.format_exc()[-600:]}, "", ""
+
+
+def run_dictargs(jobs, fams, scratch, procs=16):
+    _G["fams"], _G["scratch"] = fams, scratch
+    ctx = mp.get_context("fork")
+    with ctx.Pool(procs) as pool:
+        res = pool.map(_work_dictarg, jobs, chunksize=16)
+    res.sort(key=lambda r: r[0])
+    return res
 
 
 def _work_pair(job):
@@ -899,6 +999,34 @@ def main(argv):
             if cb["alg"]["ok"] and cb["ref"] == cb["code"]:      # --x can only be judged when its sibling is expected to parse
                 work.append({**base, "items": as_cfg(ca["items"]), "origin": "paired:x", "obs": oa})
         rep.extra["paired_two_argument_runs"] = len(pjobs)
+        # ---- ONE argument typed Dict[str, Base] / Mapping[str, Base] with 2-3 keys: every key follows an emitted single-argument
+        #      case of declared class Base (an element of a dict value is adapted like an argument: previous value by key);
+        #      the key under test is the second one (not iterated first), the others are accepted companions
+        def no_dk(c):
+            return "dict_kwargs" not in json.dumps(c["items"])
+        dcomp = [c for c in comp_all if no_dk(c)]
+        dcomp = dcomp[:: max(1, len(dcomp) // 10)][:10]
+        tested = [c for j, c in enumerate(cands) if len(c["items"]) == 2 and no_dk(c) and c["ref"] == c["code"] and (c["alg"]["ok"] or j % 8 == 0)]
+        if tier == "quick":
+            tested = [c for j, c in enumerate(tested) if j % 2 == 0 or c["items"][1]["v"]["k"] == "dict" and "class_path" not in c["items"][1]["v"]["d"]]
+        djobs, dmeta = [], []
+        for j, cb in enumerate(tested):
+            if len(dcomp) < 2:
+                break
+            ca, cc = dcomp[j % len(dcomp)], dcomp[(j + 3) % len(dcomp)]
+            keys = [("k1", ca), ("k2", cb)] + ([("k3", cc)] if j % 2 == 0 else [])
+            djobs.append((len(djobs), 0, "Base", [(k, c["items"]) for k, c in keys], flavour_of(j, common.seed() + 9)))
+            dmeta.append(keys)
+        dres = run_dictargs(djobs, fams, scratch) if djobs else []
+        for (j, obsd, py, err), keys in zip(dres, dmeta):
+            if "machinery" in obsd:
+                machinery_failure(PID, f"gamma/alpha failed on dict-argument run {j}: {obsd['machinery']}")
+            base = {"f": 0, "T": "Base", "pair": -1, "mc": None, "dflt": NONE, "chan": "argv", "py": py, "err": err, "flavour": djobs[j][4]}
+            cb = keys[1][1]
+            for k, c in keys:
+                if k == "k2" or (cb["alg"]["ok"] and cb["ref"] == cb["code"]):     # companions are judged when the key under test is expected to parse
+                    work.append({**base, "items": as_cfg(c["items"]), "origin": "dict-argument:" + k, "obs": obsd[k]})
+        rep.extra["dict_argument_runs"] = len(djobs)
         rep.extra["replayed_cases"] = len(cases)
         rep.extra["explicit_form_replays"] = sum(1 for w in work if w["origin"] == "explicit")
         rep.extra["random_families"] = nfam
@@ -988,6 +1116,9 @@ def main(argv):
                     verdict = True
                 elif cl == "ref-dev-envreq":
                     rep.violation("default-spec:env:required-only-in-default", "an environment variable that updates a default spec is rejected because a required init_arg is only in the default", info)
+                    verdict = True
+                elif cl == "ref-dev-emptydict":
+                    rep.violation("dict-empty-previous:short-form-rejected", "a key of a Dict[str, C] value in short form is rejected when the previous value was the empty dict", info)
                     verdict = True
                 elif cl == "ref-dev-both":
                     rep.violation("dict_kwargs:stale+class-without-var-keyword", "stale dict_kwargs on a class without **kwargs", info)
